@@ -188,6 +188,8 @@ class Report:
             k = known_match(self.prop, f.signature)
             if k:
                 known_seen.append((k, f))
+                if os.environ.get("VERIF_SHOW_KNOWN"):
+                    print(f"known {k['id']}: {f.signature}")
             else:
                 new_violations.append(f)
         seen_ids = set()
